@@ -3,7 +3,7 @@
   Trusted glue: not part of any theorem.
 -/
 import Lean.Data.Json
-import BiscuitModel.Model.Expr
+import BiscuitModel.Model.Datalog
 open Lean
 namespace Biscuit.Codec
 
@@ -177,5 +177,50 @@ def exprErrOut : ExprErr → String
   | .undefinedExtern => "UndefinedExtern"
   | .outOfFuel => "MODEL-OUT-OF-FUEL"
   | .unsupportedRegex => "MODEL-UNSUPPORTED"
+
+
+/-! ### engine level -/
+
+def parsePred (j : Json) : P Predicate := do
+  let n ← getNat (← field j "n")
+  let ts ← (← getArr (← field j "t")).mapM parseTerm
+  pure ⟨n, ts⟩
+
+def parseRule (j : Json) : P Rule := do
+  let h ← parsePred (← field j "h")
+  let b ← (← getArr (← field j "b")).mapM parsePred
+  let e ← (← getArr (← field j "e")).mapM parseOps
+  pure ⟨h, b, e⟩
+
+def parseNats (j : Json) : P (List Nat) := do (← getArr j).mapM getNat
+
+/-- index-based term form (same as the harness' `term_to_json`) -/
+partial def termIdx : Term → Json
+  | .var v => Json.mkObj [("v", v)]
+  | .int i => Json.mkObj [("i", Json.num (JsonNumber.fromInt i))]
+  | .str s => Json.mkObj [("s", s)]
+  | .date d => Json.mkObj [("d", d)]
+  | .bytes b => Json.mkObj [("b", hex b)]
+  | .bool b => Json.mkObj [("t", b)]
+  | .set xs => Json.mkObj [("set", Json.arr (xs.map termIdx).toArray)]
+  | .null => Json.mkObj [("null", (0 : Nat))]
+  | .arr xs => Json.mkObj [("arr", Json.arr (xs.map termIdx).toArray)]
+  | .map kvs => Json.mkObj [("map", Json.arr (kvs.map fun kv =>
+      Json.arr #[(match kv.1 with
+        | .int i => Json.mkObj [("i", Json.num (JsonNumber.fromInt i))]
+        | .str s => Json.mkObj [("s", s)]), termIdx kv.2]).toArray)]
+
+def predIdx (p : Predicate) : Json :=
+  Json.mkObj [("n", p.name), ("t", Json.arr (p.terms.map termIdx).toArray)]
+
+def factsOut (fs : List (List Nat × Fact)) : Json :=
+  Json.arr (fs.map fun of => Json.arr #[Json.arr (of.1.map (fun (n : Nat) => (n : Json))).toArray, predIdx of.2]).toArray
+
+def runErrOut : RunErr → String
+  | .expr _ => "exec"
+  | .tooManyIterations => "limit:TooManyIterations"
+  | .tooManyFacts => "limit:TooManyFacts"
+  | .timeout => "limit:Timeout"
+  | .outOfFuel => "MODEL-OUT-OF-FUEL"
 
 end Biscuit.Codec
